@@ -538,7 +538,13 @@ def gen_class_program(rng, size="small", bad_glyphs=False):
     return prog
 
 
-def gen_gattr_program(rng, same_line=False, with_defaults_case=True):
+BUILTIN_COLLISION_ATTRS = ["collision.margin", "collision.marginweight", "collision.min.x", "collision.min.y", "collision.max.x",
+                           "collision.max.y", "sequence.class", "sequence.proxClass", "sequence.order", "sequence.above.xoffset",
+                           "sequence.above.weight", "sequence.below.xoffset", "sequence.below.weight", "sequence.valign.height",
+                           "sequence.valign.weight"]
+
+
+def gen_gattr_program(rng, same_line=False, with_defaults_case=True, builtin=None):
     """Family 'gattr' (C05): overlapping classes assigning the same glyph attributes from statements spread over
     environments with AttributeOverride on/off; user attributes identified in the font through a marker glyph."""
     prog = Prog()
@@ -546,10 +552,16 @@ def gen_gattr_program(rng, same_line=False, with_defaults_case=True):
     font, glyphs, cmap = ttf.simple_font(prog.nglyphs)
     prog.font, prog.cmap = font, cmap
     nattr = rng.randint(1, 5)
+    # builtin="collision": the attributes are built-in collision.* / sequence.* glyph attributes (numbered only when the
+    # program has a collision-fixing pass) instead of user-defined ones
+    anames = ["ua%d" % j for j in range(nattr)]
+    if builtin == "collision":
+        nattr = rng.randint(2, 6)
+        anames = rng.sample(BUILTIN_COLLISION_ATTRS, nattr)
     lines = ['#include "stddef.gdh"', "table(glyph)"]
     prog.class_order = ["cM"]
     prog.classes["cM"] = [2]
-    lines.append("cM = glyphid(2) {%s};" % "; ".join("ua%d = %d" % (j, 1000 + j) for j in range(nattr)))
+    lines.append("cM = glyphid(2) {%s};" % "; ".join("%s = %d" % (anames[j], 1000 + j) for j in range(nattr)))
     ncls = rng.randint(2, 6)
     for k in range(ncls):
         name = "c%d" % k
@@ -616,9 +628,9 @@ def gen_gattr_program(rng, same_line=False, with_defaults_case=True):
                     v = rng.choice([0, 1, 5, 9, 17, 255, 256, -1, -300, 32767, -32767, rng.randint(-2000, 2000)])
                     if munits and abs(v) <= 4000 and rng.random() < 0.5:
                         # written as a scaled number (either spelling of the suffix); stored in design units
-                        parts.append(("ua%d" % j, j, scaled(v), "%d%s" % (v, rng.choice("mM"))))
+                        parts.append((anames[j], j, scaled(v), "%d%s" % (v, rng.choice("mM"))))
                         continue
-                    parts.append(("ua%d" % j, j, v))
+                    parts.append((anames[j], j, v))
             if not parts:
                 continue
             def txt(pt):
@@ -637,6 +649,8 @@ def gen_gattr_program(rng, same_line=False, with_defaults_case=True):
         merged += 2
     lines = main_lines
     lines.append("table(sub) cS1 > cS2; endtable;")
+    if builtin == "collision":
+        lines.append("table(pos) pass(1) {CollisionFix = %d} endpass; endtable;" % rng.choice([1, 2, 3]))
     prog.extra_files = {k: "\n".join(v) + "\n" for k, v in prog.extra_files.items()}
     prog.raw_gdl = "\n".join(lines) + "\n"
     prog.gattr = {"marker": 2, "markerBase": 1000, "numAttrs": nattr, "spaceGlyphs": [1], "assigns": assigns}
